@@ -412,16 +412,19 @@ PlanDelTx(p) ==
   [Cur EXCEPT !.pl[p] = d.V, !.err = d.err, !.p = d.p]
 
 \* relay payment of cu by provider pv for consumer c: tracked under the block of the subscription version found for
-\* the current epoch start; the subscription's month CU is charged (never below zero)
-RelayTx(pv, c, cu) ==
+\* the current epoch start; the subscription's month CU is charged with the relay's CU (never below zero); the tracked
+\* CU is the CU after QoS influence, truncated: a report scoring 0 with the default QoS weight 0.5 halves it
+\* (1 CU -> 0 tracked CU; the tracker entry is created even for 0)
+RelayTx(pv, c, cu, bad) ==
   LET h == now
       eps == (h \div EB) * EB
       v == SubAt(Cur, c, eps, h)
   IN IF v = NONE THEN Fail(Cur)
      ELSE LET s == sv[c][v].d
               k == <<c, pv, s.blk>>
+              tr == IF bad THEN cu \div 2 ELSE cu
           IN [Cur EXCEPT !.sv[c] = ModifyV(@, v, [s EXCEPT !.cuL = IF @ < cu THEN 0 ELSE @ - cu]),
-                         !.tcu = Upd(@, k, (IF k \in DOMAIN tcu THEN tcu[k] ELSE 0) + cu)]
+                         !.tcu = Upd(@, k, (IF k \in DOMAIN tcu THEN tcu[k] ELSE 0) + tr)]
 
 \* a buyer spends tokens elsewhere (bank send): the way renewals and purchases run out of funds
 DrainTx(cr, keep) == IF bal[cr] <= keep THEN Fail(Cur) ELSE [Cur EXCEPT !.bal[cr] = keep]
@@ -441,7 +444,7 @@ BuyAdvance(cr, c, p, d) == Tx(AdvTx(cr, c, p, d), Rec("adv", cr, c, p, d, FALSE,
 AutoRenew(cr, c, en, p) == Tx(AutoTx(cr, c, en, p), Rec("auto", cr, c, p, 0, en, 0))
 PlanAdd(p, n)      == Tx(PlanAddTx(p, BasePrice(p) + 10 * n), Rec("planadd", "", "", p, 0, FALSE, n))
 PlanDel(p)         == Tx(PlanDelTx(p), Rec("plandel", "", "", p, 0, FALSE, 0))
-Relay(pv, c, cu)   == Tx(RelayTx(pv, c, cu), Rec("relay", pv, c, "", cu, FALSE, 0))
+Relay(pv, c, cu, bad) == Tx(RelayTx(pv, c, cu, bad), Rec("relay", pv, c, "", cu, bad, 0))
 Drain(cr, keep)    == Tx(DrainTx(cr, keep), Rec("drain", cr, "", "", keep, FALSE, 0))
 
 Adv(S, n, r) == /\ ~panicked
@@ -475,6 +478,7 @@ Ops == \/ ("planadd" \in Acts /\ \E p \in PlanIdx, n \in PriceVar : PlanAdd(p, n
        \/ ("adv" \in Acts /\ \E c \in Consumers : \E cr \in CreatorsOf(c), p \in PlanIdx, d \in Durs : BuyAdvance(cr, c, p, d))
        \/ ("auto" \in Acts /\ \E c \in Consumers : \E cr \in CreatorsOf(c), en \in BOOLEAN, p \in PlanIdx \cup {""} : AutoRenew(cr, c, en, p))
        \/ (WithDrain /\ \E cr \in Buyers : Drain(cr, 50))
+       \/ ("relay" \in Acts /\ \E c \in Consumers, bad \in BOOLEAN : Relay("v1", c, 1, bad))
        \/ ("block" \in Acts /\ Block) \/ ("epoch" \in Acts /\ Epoch) \/ ("stale" \in Acts /\ Stale) \/ Month
 Next == nops < MaxOps /\ nops' = nops + 1 /\ Ops
 Spec == Init /\ [][Next]_vars
@@ -492,8 +496,8 @@ GenNext ==
      \/ (WithDrain /\ RandomElement(1..4) = 1 /\ \E cr \in One(Buyers), k \in One({0, 50, 120}) : Drain(cr, k))
      \/ (RandomElement(1..2) = 1 /\ Block) \/ (RandomElement(1..2) = 1 /\ Epoch) \/ (RandomElement(1..2) = 1 /\ Stale)
      \/ Month
-     \/ (WithRelay /\ \E pv \in One(Providers), c \in One(Consumers), cu \in One({10, 70, 150, 400}) : Relay(pv, c, cu))
-     \/ (WithRelay /\ \E pv \in One(Providers), c \in One(Consumers), cu \in One({1, 10, 70}) : Relay(pv, c, cu))
+     \/ (WithRelay /\ \E pv \in One(Providers), c \in One(Consumers), cu \in One({10, 70, 150, 400}), bad \in One({FALSE, FALSE, TRUE}) : Relay(pv, c, cu, bad))
+     \/ (WithRelay /\ \E pv \in One(Providers), c \in One(Consumers), cu \in One({1, 1, 10, 70}), bad \in One(BOOLEAN) : Relay(pv, c, cu, bad))
 Emit == nops < MaxOps \/ PrintT(<<"BEH", ToJson(hist)>>)
 NoHistView == <<now, tm, pl, sv, mt, ct, tcu, bal, mb, pay, owed, nmonths, panicked, nops>>
 
@@ -532,6 +536,10 @@ NoTarget == ~Target
 Target2 == /\ Len(hist) > 0 /\ hist[Len(hist)].a = "adv"
            /\ \E c \in Consumers : \E v \in DOMAIN sv[c] : v > now /\ sv[c][v].d.fut.on
 NoTarget2 == ~Target2
+\* third coverage target (C11): a month whose tracked-CU entries exist but sum up to 0 is waiting for its payout
+Target3 == \E k \in DOMAIN ct : LET keys == {x \in DOMAIN tcu : x[1] = k[2] /\ x[3] = ct[k].sblk} IN
+                                  keys # {} /\ SumF(tcu, keys) = 0
+NoTarget3 == ~Target3
 \* C12
 CuBounded == \A c \in Consumers : SubOn(c) => (CurSub(c).cuL >= 0 /\ CurSub(c).cuL <= CurSub(c).cuT)
 \* (a subscription whose removal is pending until the next epoch may show left = 0)
